@@ -830,7 +830,13 @@ func (s *IndexedState) FindCachedRules(ctx *Context, event Map) (map[string]*Rul
 		} else {
 			rule, err := RuleFromMap(ctx, r)
 			if err != nil {
-				return nil, err
+				// AddFact accepts any map, so a "rule"
+				// property with a usable 'when' doesn't
+				// have to hold a valid rule.  Not a reason
+				// to fail the event for all the other
+				// rules (LinearState does the same).
+				Log(ERROR, ctx, "IndexedState.FindCachedRules", "name", s.Name, "id", id, "error", err, "when", "RuleFromMap")
+				continue
 			}
 			acc[id] = rule
 			s.cachedRules[id] = rule
